@@ -57,6 +57,11 @@ def gen_case(rng, tier):
 
     def cont(d):
         r = rng.random()
+        if r < 0.12:
+            # terminals that evaluate to something falsy (fresh empty containers, results of targets returning [] / {} / None)
+            serial[0] += 1
+            return rng.choice([M([]), L([]), SP('call', func=f'verif_targets.empty{serial[0]}l', args=M([])),
+                               SP('call', func=f'verif_targets.empty{serial[0]}d', args=M([])), S('', style='dq')])
         if d <= 0 or r < 0.3:
             return leaf()
         if r < 0.55:
